@@ -22,7 +22,7 @@ def mc_sample(prop, tier, wd):
         consts = dict(V=2, EMIN=1, EMAX=3, WSET={2, 4}, WD=4, DSET={1, 2, 3}, EXTV=2)
         timeout = 600
     else:
-        consts = dict(V=3, EMIN=1, EMAX=3, WSET={2, 4, 6}, WD=4, DSET={1, 2, 3, 4}, EXTV=3)
+        consts = dict(V=3, EMIN=1, EMAX=3, WSET={2, 4}, WD=4, DSET={1, 2, 3}, EXTV=2)
         timeout = 7200
     props = ["PureCalls"]
     cfg = core.cfg_text(spec="MCSpec", constants=consts, invariants=MC_INVS[prop], properties=props)
@@ -31,6 +31,29 @@ def mc_sample(prop, tier, wd):
         raise core.ToolError("specification-level check failed: MC_Sample violates %s\n%s" % (r.violated, r.out[-2000:]))
     core.require_coverage(r, MC_ACTIONS, "Sample")
     return r, consts
+
+
+def apalache_readcounter(wd):
+    """unbounded complement for C14: inductive invariant of the read cursor for all E >= 1, NG >= 0 (3 obligations)"""
+    import subprocess, shutil
+    spec = os.path.join(core.SPEC, "apalache", "ReadCounter.tla")
+    obl = [["--init=Init", "--inv=IndInv", "--length=0"], ["--init=IndInit", "--inv=IndInv", "--length=1"], ["--init=IndInit", "--inv=Post", "--length=0"]]
+    done = 0
+    t = time.time()
+    for i, o in enumerate(obl):
+        od = os.path.join(wd, "apalache_%d" % i)
+        try:
+            r = subprocess.run(["timeout", "600", "apalache-mc", "check", "--cinit=ConstInit", "--out-dir=" + od] + o + [spec],
+                               stdout=subprocess.PIPE, stderr=subprocess.STDOUT, text=True, cwd=os.path.dirname(spec))
+        except FileNotFoundError:
+            return {"available": False}
+        shutil.rmtree(od, ignore_errors=True)
+        if "EXITCODE: OK" in r.stdout:
+            done += 1
+        elif "EXITCODE: ERROR (12)" in r.stdout or "violat" in r.stdout.lower():
+            raise core.ToolError("Apalache: obligation %d of ReadCounter.tla fails (specification-level inconsistency)\n%s" % (i, r.stdout[-1500:]))
+    return {"available": True, "obligations": len(obl), "discharged": done, "wall_s": round(time.time() - t, 1),
+            "statement": "for all E >= 1, NG >= 0: Ok => reads = 2E-1+NG+(NG mod 2); matrix error => 2E-2; Gamma error => 2E-1"}
 
 
 def attribute(ev):
@@ -136,6 +159,7 @@ def run(prop, tier, seed, replay=None):
         print(("VIOLATION property=%s replay=%s" % (prop, replay)) if mine else ("OK property=%s (replay)" % prop))
         return 1 if mine else 0
     r, consts = mc_sample(prop, tier, wd)
+    apa = apalache_readcounter(wd) if prop == "C14" else None
     gpath, gruns, gstates = gen_graphs(tier, wd, seed)
     trace = os.path.join(wd, "trace.ndjson")
     ngraphs = 400 if tier == "quick" else 4000
@@ -170,6 +194,7 @@ def run(prop, tier, seed, replay=None):
                              "rejected_runs": len(rej), "rejections_other_properties": other, "invariants_on_trace": TRACE_INVS,
                              "tlc_states": tstates},
         "harness_counters": s["counters"],
+        "apalache_inductive_invariant": apa,
         "trusted_base": ["TLC 1.8", "harness tracking scalar Tr (implements momtrop's public MomTropFloat trait)"],
     }
     assumptions = ["dependencies are data dependencies recorded by the tracking scalar in the executions explored; control dependence on the "
